@@ -306,6 +306,15 @@ example : IsA exG exC 100 :=
 -- dispatch: `$c->m0()` runs B::m0 (arity 2), `parent::m0()` written in B runs A::m0
 example : getMethod exG exC 0 = .found (false, exB, ⟨0, 2⟩) := by decide
 example : parentCall exG (Ctx.ofObject exC) 11 0 = .found (exA, false, ⟨0, 1⟩) := by decide
+-- the hypotheses of `C08_parent_nearest` on that call: code written in B (11), B's parent is the declared class A
+example : parentBase exG (Ctx.ofObject exC) 11 = exB ∧ exB.ext = some exA.name ∧ Declared exG exA := by
+  refine ⟨by decide, rfl, ?_⟩; unfold Declared; decide
+example : MostDerived exG (declAny 0) exA exA (false, ⟨0, 1⟩) := ⟨[], AncVia.self exA, by decide, by simp⟩
+example : MostDerived exG (declInst 1) exC exA ⟨1, 0⟩ :=
+  ⟨[exC, exB], AncVia.up rfl (by decide : getClass exG 11 = some exB) (AncVia.up rfl (by decide : getClass exG 10 = some exA) (AncVia.self exA)),
+    by decide, by decide⟩
+-- a hop sequence without `self::` (hypothesis of `C08_static_binding_paths_partial`)
+example : ∀ x ∈ [Hop.parent exB, Hop.staticKw, Hop.parent exA], x.isSelf = false := by decide
 example : selfCall exG 10 20 = .found (exA, ⟨20, 0⟩) ∧ staticKwCall exG (Ctx.ofObject exC) 20 = .found (exC, ⟨20, 0⟩) := by decide
 -- like: C provides I0's m0? most-derived m0 is B's with 2 parameters, I0 wants 1 → false; K's m1/0 is A's → true
 example : like exG exC 100 = some false ∧ like exG exC 102 = some true := by decide
